@@ -3,7 +3,8 @@ C11: staging directives move the named data to the named place.
 
 1. the design model Staging is checked exhaustively by TLC over all its cases
    (directive lists of length <= 2 in both forms, all actions, all schemas,
-   missing sources, targets that exist already, task outcome DONE / FAILED /
+   missing sources, directory targets (trailing slash), targets that exist
+   already, task outcome DONE / FAILED /
    CANCELED, stage_on_error); the same run is the
    enumerator of the rig's inputs (every initial state is printed);
 2. thorough: every Dev constant set TRUE must break its invariant;
@@ -29,10 +30,11 @@ INVARIANTS = ['TypeOK', 'InvPlaced', 'InvCarried', 'InvMissingFails', 'InvFailur
               'InvMoveRemoves',
               'InvLinkShares', 'InvOutOnlyIfDone', 'InvStageOnError', 'InvFailureLocal']
 DEVS = ['DevTarballSkipped', 'DevCopyIgnoresStatus', 'DevClientSkipsOnError', 'DevCopyUnquoted',
-        'DevDirTestInCwd']
+        'DevDirTestInCwd', 'DevSlashDropped', 'DevLinkNoDirTarget']
 EXPECT = {'DevTarballSkipped': 'InvCarried', 'DevCopyIgnoresStatus': 'InvMissingFails',
           'DevClientSkipsOnError': 'InvStageOnError', 'DevCopyUnquoted': 'InvFailureJustified',
-          'DevDirTestInCwd': 'InvPlaced'}
+          'DevDirTestInCwd': 'InvPlaced', 'DevSlashDropped': 'InvPlaced',
+          'DevLinkNoDirTarget': 'InvFailureJustified'}
 
 WORKERS = 8         # the run is bound by the (sequential) enumeration of the initial states
 MON_WORKERS = 1
@@ -88,6 +90,7 @@ def kclass(k):
 
 
 HOSTILE = 'hostile file name (space)'
+DIRTGT  = 'directory target (trailing slash), %s'
 CWDDIR  = 'relative target, working directory holds a directory of that name'
 
 
@@ -107,22 +110,29 @@ def case_classes(c):
         return [('empty',) + oc]
     if len(ds) == 1:
         d, dr = ds[0], 'in' if nin else 'out'
-        ks.append(('src', dr, d['form'], d['act'], kclass(d['sk']), d['sp'] == 'm'))
-        ks.append(('tgt', dr, d['form'], d['act'], kclass(d['tk'])))
+        ks.append(('form', dr, d['form'], kclass(d['tk']) in ('rel', 'abs', 'omit')))
+        ks.append(('src', dr, d['act'], kclass(d['sk']), d['sp'] == 'm'))
+        ks.append(('tgt', dr, d['act'], kclass(d['tk'])))
         ks.append(('sub', dr, d['act'], d['tp']))
+        if d['tp'] == 'd/' and d['sp'] != 'm':      # directory target, created on demand
+            ks.append(('dir', dr, d['act'], kclass(d['tk'])))
+            ks.append(('dirform', dr, d['form']))
         if d['tk'] in ('absfile', 'relcwd', 'relcwddir', 'absdir'):      # target exists already
             ks.append(('exists', d['act'], d['tk'], d['sp'] == 'm'))
-        if d['tk'] in ('omit', 'empty', 'absdir'):
+        if d['tk'] in ('omit', 'empty', 'absdir') and d['sp'] != 'm':
             ks.append(('base', dr, d['act'], d['tk'], d['sp']))
         if dr == 'out':
             ks.append(('oc', d['act'], d['sp'] == 'm') + oc)
         return ks
     chain = (ds[1]['sk'], ds[1]['sp']) == (ds[0]['tk'], ds[0]['tp'])
     miss  = tuple(d['sp'] == 'm' for d in ds)
-    ks.append(('pair', nin, ds[0]['act'], ds[1]['act'], chain, any(miss)))
-    ks.append(('pairmiss', nin, miss, ds[0]['act'] if miss[0] else ds[1]['act']))
+    ks.append(('pair', nin, ds[0]['act'], ds[1]['act']))
+    if chain:
+        ks.append(('chain', ds[0]['act'], ds[1]['act'], any(miss)))
+    if any(miss):
+        ks.append(('pairmiss', nin, miss, ds[0]['act'] if miss[0] else ds[1]['act']))
     if nin < 2:
-        ks.append(('pairoc', nin, ds[-1]['act'], any(miss)) + oc)
+        ks.append(('pairoc', nin, ds[-1]['act'] in ('TRANSFER',), any(miss)) + oc)
     return ks
 
 
@@ -156,6 +166,9 @@ def classify(case, clause, info):
         return 'TARBALL input directive'
     if hostile(case):
         return HOSTILE
+    if any(d['tp'].endswith('/') for d in case['din'] + case['dout']) \
+            and clause != 'C11.OutOnlyIfDone':
+        return DIRTGT % '/'.join(acts)
     if clause == 'C11.OutOnlyIfDone':
         return 'task outcome %s, no stage_on_error' % case['oc']
     if any(d['tk'] == 'relcwddir' for d in case['din']):
@@ -204,6 +217,8 @@ def judge(chk, traces, kind, conform=True):
             if err.startswith('X.'):
                 raise Machinery('trace of case %s is malformed: %s' % (case, err))
             cls = classify(case, err, info)
+            if cls == DIRTGT % 'LINK' and err == 'C11.SpuriousFailure':
+                found.add('DevLinkNoDirTarget')
             if cls == HOSTILE:
                 found.add('DevCopyUnquoted')
                 if err == 'C11.Placed':         # cp failed and nobody noticed
@@ -254,7 +269,7 @@ def run(chk, tier, seed):
     if not quick:
         for dev in DEVS:
             res = tlc.run('Staging', 'Staging', 'MC.cfg', workers=WORKERS, timeout=900,
-                          extra_files=model_cfg(devs=[dev]))
+                          extra_files=model_cfg(devs=[dev], scope='dev'))
             chk.add_tlc(res, 'deviation:' + dev)
             if res.ok or res.violated != EXPECT[dev]:
                 raise Machinery('deviation %s not detected by the model (got %s)'
